@@ -20,6 +20,7 @@ Lean cannot model GCC's constant evaluator (DESIGN §6).  What is proved here:
 
 The tie of both paths to these models/specifications is the three-way correspondence run of checks/props/c13.py.
 -/
+import Tetl.C13.Spec
 import TetlProofs.C13.Lemmas
 import TetlProofs.C13.LemmasSafe
 import TetlProofs.C13.GcemValue
